@@ -167,29 +167,9 @@ func checkC05(c *Ctx, r *Report) {
 	}
 
 	// ---- R05c ----
-	r.Rule("R05c", "inside the normalize family only normalizeSetField stores a named setting into the tree under construction; maps and structs both hand (name, value) to it", 3)
+	namedStoreRule(c, r, "R05c")
 	nsf := c.Func("", "normalizeSetField")
 	setValue := c.Method("", "cfgPath", "SetValue")
-	fset := c.Method("", "fields", "set")
-	for _, fn := range c.SrcFuncs() {
-		if fn.Pkg != c.SSA[""] || !strings.HasPrefix(fn.Name(), "normalize") {
-			continue
-		}
-		for _, ci := range CallsIn(fn, true) {
-			g := ci.Common().StaticCallee()
-			if g == nil {
-				continue
-			}
-			if g == setValue || g == fset {
-				r.Check(fn == nsf, "R05c", c.FnName(fn), "named store "+g.Name(), c.Pos(ci.Pos()), "in normalizeSetField", "a normalize function stores a named setting without going through normalizeSetField: names from that source are not split at the separator and duplicates are not detected")
-			}
-		}
-	}
-	for _, name := range []string{"normalizeMapInto", "normalizeStructInto"} {
-		fn := c.Func("", name)
-		n := len(CallsTo(fn, nsf, false))
-		r.Check(n >= 1, "R05c", c.FnName(fn), "hands pairs to normalizeSetField", c.Pos(fn.Pos()), fmt.Sprintf("%d call(s)", n), name+" no longer stores its settings through normalizeSetField")
-	}
 
 	// ---- R05d ----
 	r.Rule("R05d", "normalizeSetField: a store happens only where nothing non-nil is present; a merge only when old and new are both objects; every other collision is reported as a duplicate", 3)
@@ -449,4 +429,36 @@ func verbatimNameRule(c *Ctx, r *Report) {
 	if n == 0 {
 		r.add("R05f", name, "name part verbatim", c.Pos(fn.Pos()), Undecided, true, "parseTags has no return")
 	}
+}
+
+// namedStoreRule (R05c, and R18h for the front-ends): one place stores named settings while an input is normalised.
+func namedStoreRule(c *Ctx, r *Report, rule string) {
+	r.Rule(rule, "inside the normalize family only normalizeSetField stores a named setting into the tree under construction; maps and structs both hand (name, value) to it", 3)
+	nsf := c.Func("", "normalizeSetField")
+	setValue := c.Method("", "cfgPath", "SetValue")
+	fset := c.Method("", "fields", "set")
+	for _, fn := range c.SrcFuncs() {
+		if fn.Pkg != c.SSA[""] || !strings.HasPrefix(fn.Name(), "normalize") {
+			continue
+		}
+		for _, ci := range CallsIn(fn, true) {
+			g := ci.Common().StaticCallee()
+			if g == nil {
+				continue
+			}
+			if g == setValue || g == fset {
+				r.Check(fn == nsf, rule, c.FnName(fn), "named store "+g.Name(), c.Pos(ci.Pos()), "in normalizeSetField", "a normalize function stores a named setting without going through normalizeSetField: names from that source are not split at the separator and duplicates are not detected")
+			}
+			// merging a normalised part into the tree under construction stores all its names at once, last one wins
+			if g.Pkg == c.SSA[""] && g.Name() == "mergeConfig" {
+				r.Check(fn == nsf, rule, c.FnName(fn), "named store "+g.Name(), c.Pos(ci.Pos()), "in normalizeSetField (R05d: only for two objects under one name)", "a normalize function merges a normalised part into the tree under construction: its names are stored by the merge, where the last one wins — a setting defined twice (by an inlined struct and a sibling field, by two inlined parts) is no longer rejected as a duplicate")
+			}
+		}
+	}
+	for _, name := range []string{"normalizeMapInto", "normalizeStructInto"} {
+		fn := c.Func("", name)
+		n := len(CallsTo(fn, nsf, false))
+		r.Check(n >= 1, rule, c.FnName(fn), "hands pairs to normalizeSetField", c.Pos(fn.Pos()), fmt.Sprintf("%d call(s)", n), name+" no longer stores its settings through normalizeSetField")
+	}
+
 }
